@@ -355,6 +355,13 @@ def concurrent_send(R, test_exe, rounds, race=False):
                     if m.group(4) == "1" else "a transport wrote bytes that are not the frame assembled for its face")
             R.oracle_failure("frame-of-other-face", what + ": the frame buffer is shared between link services whose send goroutines run concurrently",
                              dict(line=l, harness="facelp.test -test.run TestConcurrentSend"))
+    for l in lines:
+        m = re.match(r"QF offered=(\d+) queue=(\d+) written=(\d+) intact=(\d+) in_order=(\d)", l)
+        if m and (m.group(3) != m.group(4) or m.group(5) != "1" or int(m.group(3)) > int(m.group(2)) + 1):
+            R.oracle_failure("send-queue-overflow", "a blocked face whose send queue overflowed wrote frames that are not, in order, the first packets queued: " + l,
+                             dict(line=l, harness="facelp.test -test.run TestConcurrentSend"))
+        elif l.startswith("QF blocked"):
+            R.oracle_failure("send-packet-blocks", "SendPacket blocked the caller on a face whose queue is full: " + l, dict(line=l))
     R.coverage.setdefault("distribution", {})["concurrent_send_rounds" + ("_race" if race else "")] = n
     R.add_cases(n, n, lines[:1])
 
@@ -413,6 +420,39 @@ def thread_consume(R, test_exe, rounds):
             break
     R.coverage.setdefault("distribution", {})["thread_consume"] = kinds
     R.add_cases(len(lines), len(lines), [l[:120] for l in lines[:1]])
+
+
+def transports(R, test_exe):
+    """The glue around readTlvStream / sendFrame on real sockets: unix-stream, on-demand TCP, unicast UDP; Run(initial frame)."""
+    trace = os.path.join(R.work, "transports.trace")
+    env = vlib.goenv()
+    env.update(VERIF_SEED=str(R.seed), VERIF_OUT=trace)
+    rc, out = vlib.sh([test_exe, "-test.run", "TestTransports$", "-test.count=1", "-test.timeout=120s"], env=env, timeout=200)
+    lines = [l.strip() for l in open(trace, errors="replace")] if os.path.exists(trace) else []
+    if rc != 0:
+        R.oracle_failure("transports-crash", "the real-socket transport harness aborted", dict(output=out[-1500:], last=lines[-1:]))
+        return
+    n = 0
+    for l in lines:
+        if " unavailable " in l:
+            R.notes.append("real-socket scenario skipped in this environment: " + l)
+            continue
+        m = re.match(r"TR (\w+) rx_sent=(\d+) rx_delivered=(\d+) rx_match=(\d) tx_sent=(\d+) tx_got=(\d+) tx_match=(\d)", l)
+        if m:
+            n += 1
+            if m.group(4) != "1":
+                R.oracle_failure("transport-rx:" + m.group(1), "frames written to a real %s face in pieces: %s packets sent, %s delivered to the forwarding threads, not the same packets"
+                                 % (m.group(1), m.group(2), m.group(3)), dict(line=l, harness="facelp.test -test.run TestTransports"))
+            if m.group(7) != "1":
+                R.oracle_failure("transport-tx:" + m.group(1), "packets sent through a real %s face: %s sent, %s blocks read from the socket, not the same packets"
+                                 % (m.group(1), m.group(5), m.group(6)), dict(line=l, harness="facelp.test -test.run TestTransports"))
+        m = re.match(r"RI delivered=(\d+) match=(\d)", l)
+        if m:
+            n += 1
+            if m.group(2) != "1":
+                R.oracle_failure("run-initial-frame", "Run(initial frame) did not deliver the packet of the initial frame exactly once", dict(line=l))
+    R.coverage.setdefault("distribution", {})["real_transports"] = n
+    R.add_cases(n, n, lines[:1])
 
 
 def load_cases(trace):
